@@ -19,7 +19,7 @@ import (
 
 // Points that single-hold policies choose from.
 var Points = []string{
-	"process.start.triggered", "process.monitor.started", "process.monitor.cease", "process.wait.locked",
+	"process.start.triggered", "process.monitor.create", "process.monitor.started", "process.monitor.cease", "process.wait.locked",
 	"tasktrace.do.checked", "tasktrace.process.responded", "harness.request",
 	"flow.action", "flow.flowtrace", "flow.start",
 	"evgw.determined", "evgw.withdraw", "or.tracker.trace", "or.trysync", "and.arrive", "xor.report",
